@@ -57,6 +57,14 @@ void dgstrs(trans_t trans, SuperMatrix *L, SuperMatrix *U, int_t *perm_r, int_t 
         vh_assert_eq(w[i], r, "the residual handed to the solve is B - op(A)*X for the current X");
     }
     for (i = 0; i < N; ++i) w[i] = vh_double();    /* any correction */
+#if defined(WITNESS) && defined(WIT_NSOLVE)
+    /* witness twin only: a concrete run (a = b = 1, x0 = 0, corrections 2^-k: berr = 1, 1/3, 1/7, 1/15, 1/31, 1/63) with WIT_NSOLVE corrections */
+    { double p = 1.0; for (i = 0; i < nsolve; ++i) p = p / 2.0; vh_assume(w[0] == p); }
+#elif defined(PINPREFIX)
+    /* pinned-prefix query: a = b = 1, x0 = 0 and the first PINPREFIX corrections are 2^-k (each at least halves berr, so the
+       loop keeps going); every later correction is arbitrary */
+    if (nsolve <= PINPREFIX) { double p = 1.0; for (i = 0; i < nsolve; ++i) p = p / 2.0; vh_assume(w[0] == p); }
+#endif
     *info = 0;
 }
 /* the error-bound estimator is entered once per column, after that column's refinement loop */
@@ -77,6 +85,9 @@ VH_MAIN
     for (i = 0; i < N; ++i) { R[i] = 1.0; C[i] = 1.0; }
     for (i = 0; i < N * NRHS; ++i) { b[i] = vh_double(); x[i] = vh_double(); x_in[i] = x[i]; }
     bst.lda = N; bst.nzval = b; xst.lda = N; xst.nzval = x; gx = x; gb = b; vh_xbase = x; vh_bbase = b;
+#if (defined(WITNESS) && defined(WIT_NSOLVE)) || defined(PINPREFIX)
+    vh_assume(a[0] == 1.0 && b[0] == 1.0 && x[0] == 0.0);
+#endif
     B.Stype = SLU_DN; B.Dtype = SLU_D; B.Mtype = SLU_GE; B.nrow = N; B.ncol = NRHS; B.Store = &bst; X = B; X.Store = &xst;
 
     dgsrfs((trans_t)TR, &A, &L, &U, perm_r, perm_c, NOEQUIL, R, C, &B, &X, ferr, berr, &G, &info);
@@ -118,6 +129,9 @@ VH_MAIN
         vh_assert(berr[0] >= 0.0, "berr is non-negative");
         vh_assert(attained || (!any && berr[0] == 0.0) || (any && berr[0] == 0.0), "and is attained by one component (it is the maximum, not merely a bound)");
     }
+#endif
+#if defined(WITNESS) && defined(WIT_NSOLVE)
+    vh_assume(nsolve == WIT_NSOLVE);   /* witness twin only: a run with exactly this many corrections exists */
 #endif
     VH_WITNESS();
     return 0;
